@@ -164,7 +164,11 @@ def plan_for(pid, tier, seed):
                     assumptions=["TLC and the Json/IOUtils community modules",
                                  "the reference semantics Str.tla incl. the transcribed UTF-8/UTF-16 decoders (cross-validated against std on every input)"])
     if pid == "C16":
-        return dict(level="model_checking", mc=[COLL_MC], special=[],
+        # the callback-taking algorithms as step machines with a panic at every callback: the code's variants must
+        # satisfy the laws, the pre-fix / seeded variants must be refuted
+        ps = [dict(module="PanicSafe", cfg="PanicSafe_" + c, workers=2, timeout=600, mem="2g") for c in ("df", "tr", "sr")]
+        ps += [dict(module="PanicSafe", cfg="PanicSafe_" + c, workers=2, timeout=600, mem="2g", expect_violation=True) for c in ("df_bad", "tr_bad", "sr_bad")]
+        return dict(level="model_checking", mc=[COLL_MC] + ps, special=[],
                     traces=coll_corpus(tier, seed, COLL_GENS[pid]) + str_corpus(tier, seed, ["spanics", "srandom"])
                            + arena_corpus(tier, seed, ["apanics"]),
                     assumptions=["TLC and the Json/IOUtils community modules", "Coll.tla / Str.tla reference semantics (cross-validated against std)",
